@@ -269,6 +269,62 @@ def signature_bytes():
     return Scenario(label, P + 'SignatureV4.__bytearray__', gen, props=('C08', 'C02'))
 
 
+def signature_copy():
+    """SignatureV4.__copy__: key.pubkey, copy.copy(key / message / signature) export COPIES of signature packets. Every field that
+    __bytearray__ writes (header, type, algorithms, subpacket areas, left 16 bits of the hash, signature integers) is carried by the copy:
+    the same numbers, the same two hash octets in a buffer of its own, and copies of the header, the areas and the integers."""
+    label = 'C08/SignatureV4.__copy__'
+    SIGP = P + 'SignatureV4'
+
+    def gen(repo):
+        r = scn.Run(repo, SIGP, '__copy__', label)
+        ex, st = r.ex, r.st
+        H2 = z3.Const('LEFT16', B)
+        t, p, h = z3.Ints('sigtype pubalg halg')
+        st.pc += [t >= 0, t < 256, p >= 0, p < 256, h >= 0, h < 256, z3.Length(H2) == 2]
+        h2 = ex.new_buf(st, H2)
+        parts = {'header': E.VObj('pgpy.packet.types.Header', 'hdr'), 'subpackets': E.VObj('pgpy.packet.fields.SubPackets', 'subp'),
+                 '_signature': E.VObj('pgpy.packet.fields.RSASignature', 'sigfield')}
+        for f, v in (('_sigtype', E.VInt(t, enum='pgpy.constants.SignatureType')), ('_pubalg', E.VInt(p, enum='pgpy.constants.PubKeyAlgorithm')),
+                     ('_halg', E.VInt(h, enum='pgpy.constants.HashAlgorithm')), ('hash2', h2)) + tuple(parts.items()):
+            r.set('pkt', f, v)
+
+        def cp(ex, st, o, a):
+            return [(st, E.VObj(o.cls, 'copy-of-' + str(o.ref)))]
+        for c in ('pgpy.packet.types.Header', 'pgpy.packet.fields.SubPackets', 'pgpy.packet.fields.RSASignature'):
+            r.hook(c, '__copy__', scn.method_hook(cp))
+
+        def fresh_packet(ex, st, c, a):
+            # what SignatureV4.__init__ leaves: nothing set, an empty subpacket container, two zero octets
+            for f in ('_sigtype', '_pubalg', '_halg', '_signature'):
+                st.heap[('copy', f)] = E.VNone()
+            st.heap[('copy', 'subpackets')] = E.VObj('pgpy.packet.fields.SubPackets', 'empty-areas')
+            st.heap[('copy', 'hash2')] = ex.new_buf(st, z3.Concat(z3.Unit(z3.IntVal(0)), z3.Unit(z3.IntVal(0))))
+            st.heap[('copy', 'header')] = E.VObj('pgpy.packet.types.Header', 'fresh-header')
+            return [(st, E.VObj(SIGP, 'copy'))]
+        r.hook(SIGP, '__call__', fresh_packet)
+        for pi, (s, v) in enumerate(r.call(E.VObj(SIGP, 'pkt'), [])):
+            if isinstance(v, E.Raise):
+                r.oblige(s, 'safety(%s)/p%d' % (v.exc.split(':')[0], pi), z3.BoolVal(False), v.where)
+                continue
+            r.oblige(s, 'a-new-packet/p%d' % pi, z3.BoolVal(isinstance(v, E.VObj) and v.ref == 'copy'))
+            g = lambda f: s.heap.get(('copy', f))
+            for f, z in (('_sigtype', t), ('_pubalg', p), ('_halg', h)):
+                x = g(f)
+                r.oblige(s, 'same-%s/p%d' % (f.strip('_'), pi), x.z == z if isinstance(x, E.VInt) else z3.BoolVal(False))
+            for f, o in parts.items():
+                x = g(f)
+                r.oblige(s, 'holds-a-copy-of-the-%s/p%d' % ({'_signature': 'signature-integers', 'subpackets': 'subpacket-areas'}.get(f, f), pi),
+                         z3.BoolVal(isinstance(x, E.VObj) and x.ref == 'copy-of-' + o.ref))
+            x = g('hash2')
+            isbuf = isinstance(x, (E.VBuf, E.VBytes))
+            r.oblige(s, 'same-left-16-bits-of-the-hash/p%d' % pi, ex.seq(x, s) == H2 if isbuf else z3.BoolVal(False))
+            r.oblige(s, 'in-a-buffer-of-its-own/p%d' % pi, z3.BoolVal(isbuf and not (isinstance(x, E.VBuf) and x.cell == h2.cell)))
+            r.oblige(s, 'original-untouched/p%d' % pi, z3.And(s.heap[h2.cell] == H2, z3.BoolVal(all(s.heap.get(('pkt', f)) is o for f, o in parts.items()))))
+        return r.result()
+    return Scenario(label, SIGP + '.__copy__', gen, props=('C08', 'C02', 'C14', 'C07'))
+
+
 def s2k_roundtrip(spec):
     """String2Key.__bytearray__ / parse for simple (0), salted (1), iterated (3) specifiers, usage 254/255, with and without IV"""
     label = 'C08/String2Key.codec[specifier %d]' % spec
@@ -338,7 +394,7 @@ def s2k_roundtrip(spec):
 
 def scenarios():
     return [literal_bytes(), literal_parse(), simple_body('SKEData', 'ct', 0), simple_body('IntegrityProtectedSKEDataV1', 'ct', 1), simple_body('UserID', 'uid', 0),
-            onepass_parse(), signature_parse(), signature_bytes()] + [s2k_roundtrip(s) for s in (0, 1, 3)]
+            onepass_parse(), signature_parse(), signature_bytes(), signature_copy()] + [s2k_roundtrip(s) for s in (0, 1, 3)]
 
 
 def ecpoint_from_values():
